@@ -32,7 +32,13 @@ Case(toks) ==
    values |-> IF Uses(toks, <<58,118>>) THEN [x \in {":v"} |-> IF Kind = "cond" THEN Str(<<120>>) ELSE Num(2)] ELSE <<>>]
 
 Tuples(k) == [1..k -> DOMAIN Alphabet]
-Chosen(k) == IF k <= FullLen THEN Tuples(k) ELSE RandomSubset(Sample, Tuples(k))
+\* sampling: random NUMBERS below |Alphabet|^k, read as k digits in base |Alphabet| (sampling the set of tuples itself makes
+\* TLC enumerate it: 3.2 million functions for k = 5)
+NA == Len(Alphabet)
+RECURSIVE Pow(_,_)
+Pow(b, k) == IF k = 0 THEN 1 ELSE b * Pow(b, k - 1)
+Decode(i, k) == [j \in 1..k |-> ((i \div Pow(NA, j - 1)) % NA) + 1]
+Chosen(k) == IF k <= FullLen THEN Tuples(k) ELSE { Decode(i, k) : i \in RandomSubset(Sample, 0..(Pow(NA, k) - 1)) }
 Cases == UNION { { Case(t) : t \in Chosen(k) } : k \in 1..MaxLen }
 ASSUME \A c \in Cases : PrintT(ToJson(c))
 VARIABLE dummy
